@@ -108,6 +108,11 @@ type EchPlan struct {
 	// its own in Transport.Dialer instead of changing the fields of the one
 	// NewTransport made.
 	OwnDialer    bool `json:"own_dialer,omitempty"`
+	// Again (with ViaTransport, a caller config): after the first request the
+	// application changes Transport.TLSConfig in place (a ServerName pin and a
+	// config list of its own) and sends the request once more; the second
+	// request's dials are judged by the new settings.
+	Again bool `json:"again,omitempty"`
 	ViaTransport bool `json:"via_transport,omitempty"`
 	// CallerMaxVersion: the caller pins tls.Config.MaxVersion (a config written
 	// for a legacy peer); what crypto/tls makes of that together with an ECH
@@ -597,6 +602,11 @@ func executeEch(t *testing.T, prop string, seed uint64, p *EchPlan) *core.Result
 	var retConnB *simConn
 	var retErrB error
 	var retSeqB, retTB int64
+	if p.Again && p.ViaTransport && !p.CallerNil {
+		q := *p
+		q.CallerECH, q.CallerServerName = 988, "pinned.example.net"
+		pB, esB = &q, &echState{perIP: map[string]int{}}
+	}
 	if p.Twin && !p.ViaTransport && !p.CallerNil {
 		q := *p
 		if p.CallerECH > 0 {
@@ -618,6 +628,7 @@ func executeEch(t *testing.T, prop string, seed uint64, p *EchPlan) *core.Result
 	var panicS, panicAt string
 	var libLeft, other []string
 	var retNilNil atomic.Bool
+	againDone, callerMutEarly := false, false
 	msg := core.Bubble(t, func(t *testing.T) {
 		g0 := runtime.NumGoroutine()
 		es.rs = &raceState{t0: time.Now()}
@@ -629,7 +640,7 @@ func executeEch(t *testing.T, prop string, seed uint64, p *EchPlan) *core.Result
 		d := &ech.Dialer[*simConn]{RequireECH: p.RequireECH, Resolver: resolver, PublicName: p.PublicName,
 			MaxConcurrency: p.MaxConc, ConcurrencyDelay: time.Duration(p.DelayNs), Timeout: time.Duration(p.TimeoutNs), DialFunc: es.dialFunc(p)}
 		var twinDone chan struct{}
-		if esB != nil {
+		if esB != nil && !p.ViaTransport {
 			esB.rs = es.rs
 			fa, fb := es.dialFunc(p), esB.dialFunc(pB)
 			d.DialFunc = func(ctx context.Context, network, addr string, tc *tls.Config) (*simConn, error) {
@@ -644,6 +655,16 @@ func executeEch(t *testing.T, prop string, seed uint64, p *EchPlan) *core.Result
 		defer cancel()
 		if p.ViaTransport {
 			inner := es.dialFunc(p)
+			if esB != nil {
+				esB.rs = es.rs
+				fa, fb := inner, esB.dialFunc(pB)
+				inner = func(ctx context.Context, network, addr string, tc *tls.Config) (*simConn, error) {
+					if ctx.Value(twinKey{}) != nil {
+						return fb(ctx, network, addr, tc)
+					}
+					return fa(ctx, network, addr, tc)
+				}
+			}
 			tr := ech.NewTransport()
 			tr.Resolver = resolver
 			tr.TLSConfig = caller
@@ -690,6 +711,32 @@ func executeEch(t *testing.T, prop string, seed uint64, p *EchPlan) *core.Result
 					resp.Body.Close()
 				}
 			})
+			if esB != nil && panicS == "" {
+				retSeq = es.rs.seq.Add(1)
+				retT = int64(time.Since(es.rs.t0))
+				// the application re-pins its config in place and asks again
+				callerMutEarly = caller.ServerName != before.ServerName || !bytes.Equal(caller.EncryptedClientHelloConfigList, before.EncryptedClientHelloConfigList) ||
+					!slices.Equal(caller.NextProtos, before.NextProtos) || caller.MinVersion != before.MinVersion || caller.MaxVersion != before.MaxVersion || caller.InsecureSkipVerify
+				caller.ServerName = pB.CallerServerName
+				caller.EncryptedClientHelloConfigList = callerList(pB.CallerECH)
+				callerB = caller
+				beforeB = &tls.Config{ServerName: caller.ServerName, NextProtos: slices.Clone(caller.NextProtos), MinVersion: caller.MinVersion, MaxVersion: caller.MaxVersion,
+					EncryptedClientHelloConfigList: slices.Clone(caller.EncryptedClientHelloConfigList)}
+				core.Guard(func() {
+					req, err := http.NewRequestWithContext(context.WithValue(ctx, twinKey{}, 2), "GET", "https://"+strings.TrimSpace(addr)+"/", nil)
+					if err != nil {
+						return
+					}
+					var resp *http.Response
+					resp, retErrB = tr.RoundTrip(req)
+					if resp != nil {
+						resp.Body.Close()
+					}
+				})
+				retSeqB = es.rs.seq.Add(1)
+				retTB = int64(time.Since(es.rs.t0))
+				againDone = true
+			}
 			tr.HTTPTransport.CloseIdleConnections()
 		} else {
 			if twinDone != nil {
@@ -706,8 +753,10 @@ func executeEch(t *testing.T, prop string, seed uint64, p *EchPlan) *core.Result
 				retConn, retErr = d.Dial(ctx, p.Network, addr, caller)
 			})
 		}
-		retSeq = es.rs.seq.Add(1)
-		retT = int64(time.Since(es.rs.t0))
+		if !againDone {
+			retSeq = es.rs.seq.Add(1)
+			retT = int64(time.Since(es.rs.t0))
+		}
 		if twinDone != nil {
 			<-twinDone
 		}
@@ -793,6 +842,14 @@ func executeEch(t *testing.T, prop string, seed uint64, p *EchPlan) *core.Result
 		}
 		return res
 	}
+	if againDone {
+		// (the harness itself changed the caller's config after the first request:
+		// what Dial did to it up to then was compared at that point)
+		caller, before = nil, nil
+		if callerMutEarly {
+			res.Fail(prop, "caller-config", "caller's tls.Config mutated (Transport.TLSConfig after the first request)", "")
+		}
+	}
 	judgeEch(res, prop, p, es, caller, before, retConn, retErr, retSeq, retT, len(up.queries), resolverFault || len(p.Zone.Fail) > 0)
 	if esB != nil {
 		// the twin, by its own expectations (what goes into the canonical log and
@@ -800,9 +857,17 @@ func executeEch(t *testing.T, prop string, seed uint64, p *EchPlan) *core.Result
 		tmp := &core.Result{}
 		judgeEch(tmp, prop, pB, esB, callerB, beforeB, retConnB, retErrB, retSeqB, retTB, len(up.queries), true)
 		for _, v := range tmp.Violations {
-			res.Fail(prop, v.Class, v.Site+" (second of two calls that share one Dialer)", "%s", v.Detail)
+			label := " (second of two calls that share one Dialer)"
+			if p.Again {
+				label = " (second request, after Transport.TLSConfig was changed in place)"
+			}
+			res.Fail(prop, v.Class, v.Site+label, "%s", v.Detail)
 		}
-		res.Probe("two_dials_on_one_dialer")
+		if p.Again {
+			res.Probe("second_request_after_config_change")
+		} else {
+			res.Probe("two_dials_on_one_dialer")
+		}
 		res.Arbitrated = true
 	}
 	if retNilNil.Load() {
